@@ -37,5 +37,7 @@ SEEDED = [
     ("C11-7", "C11-PROP"),
     ("C11-8", "C11-PRED"),
     ("C11-9", "C11-ORDER"),
+    ("C11-10", "C11-PRED"),
+    ("C11-11", "C11-OWN"),
 ]
 MUTANTS = list(MUTANTS) + [_P("seed-" + sid, _os.path.join(_SEEDS, sid, "patch.diff"), rule) for sid, rule in SEEDED if _os.path.exists(_os.path.join(_SEEDS, sid, "patch.diff"))]
